@@ -22,9 +22,10 @@ ASSUMPTIONS = ['the expected decomposition is never computed by a second '
                'per-component removal and structural facts about the parts; '
                'for generated structured labels the parts are known by '
                'construction',
-               'boyd_split_numbering without boyd_split_marking: usage text '
-               'says "number", docstring says "marking + numbering" -> either '
-               'rendering accepted',
+               'boyd_split_marking and boyd_split_numbering are independent, '
+               'as the writer option table says ("Mark split nodes with *" / '
+               '"Number split nodes"): numbering alone gives the number '
+               'without an asterisk',
                'a category consisting of the single character * may or may '
                'not count as "wrapped in asterisks"']
 WATCHDOG = {'quick': 600, 'thorough': 3600}
@@ -243,7 +244,6 @@ def check_get_label(ctx, rng, subset=None):
         mark = '*' if 'boyd_split_marking' in params else ''
         if 'boyd_split_numbering' in params:
             exps.append(exp + mark + str(block))
-            exps.append(exp + '*' + str(block))
         else:
             exps.append(exp + mark)
     else:
